@@ -121,7 +121,7 @@ def fp_miter_text(builder, outsA, outsB, domain):
   return ir.build_smt(builder, list(domain) + [ir.L(body, *diffs)])
 
 
-def decide(run, oid, builder, outsA, outsB, inputs, domain, confirm, meta, relax=True, fp=True, timeout=900, relax_kw=None):
+def decide(run, oid, builder, outsA, outsB, inputs, domain, confirm, meta, relax=True, fp=True, timeout=900, relax_kw=None, probes=()):
   """confirm(witness dict name->float32 bits or floats) -> (bool reproduced, detail).
   Records an obligation in `run`; returns Verdict(kind in equal/different/inconclusive)."""
   t0 = time.time()
@@ -131,6 +131,13 @@ def decide(run, oid, builder, outsA, outsB, inputs, domain, confirm, meta, relax
     ob.result = solve.Result("unsat", {}, 0.0, "hash-consing")
     ob.smt = "(structural) output terms identical"
     return Verdict("equal", "hash-consing")
+  # cheapest member of the portfolio: a handful of concrete probe inputs (only ever used to *find* a difference)
+  for w in probes:
+    ok, detail = confirm(w)
+    if ok:
+      ob.result = solve.Result("sat", {}, time.time() - t0, "probe+replay")
+      ob.smt = "(concrete probe) witness %r" % (w,)
+      return Verdict("different", "probe", time.time() - t0, w, detail)
   if relax:
     try:
       w = relaxation_witness(builder, outsA, outsB, inputs, **(relax_kw or {}))
